@@ -93,6 +93,15 @@ class SizeMonitor(netsim.Monitor):
 
 
 # ============================================================================ C09
+def independent_pto(conn):
+    """Probe timeout computed from the RTT estimator fields (RFC 9002 6.2.1), NOT through the
+    library's get_probe_timeout(): smoothed_rtt + max(4*rttvar, granularity) + max_ack_delay."""
+    loss = conn._loss
+    if not loss._rtt_initialized:
+        return 2 * loss._rtt_initial
+    return loss._rtt_smoothed + max(4 * loss._rtt_variance, 0.001) + loss.max_ack_delay
+
+
 class TimerMonitor(netsim.Monitor):
     """A live connection always names a finite timer; closing always terminates once."""
 
@@ -101,14 +110,41 @@ class TimerMonitor(netsim.Monitor):
         self.term_count = {"c": 0, "s": 0}
         self.close_batches = {"c": 0, "s": 0}
         self.last_rx = {}
+        self.activity = {}    # endpoint -> (time of last new genuine packet processed or
+        #                       ack-eliciting packet sent, independent PTO then)
+        self.seen_dgrams = {"c": set(), "s": set()}
 
     def on_deliver(self, w, ep, d, addr):
         self.last_rx[ep.name] = w.now
+        # a duplicate of a datagram already delivered is not activity
+        fp = hash(d.data)
+        if d.kind in ("genuine", "dup") and fp not in self.seen_dgrams[ep.name]:
+            self.seen_dgrams[ep.name].add(fp)
+            self._new_rx = ep.name
 
     def after_pump(self, w, ep, cause, sent, new_events, timer):
         conn = ep.conn
         name = ep.name
         n_term = sum(1 for e in new_events if type(e).__name__ == "ConnectionTerminated")
+        # ---- idle deadline: termination by idle timeout must come no later than
+        #      (last activity + negotiated idle period), activity = a new genuine packet
+        #      delivered or an ack-eliciting packet sent (RFC 9000 10.1)
+        idle = max(min(w.cfg["idle"], w.cfg["idle"]), 3 * independent_pto(conn))
+        if getattr(self, "_new_rx", None) == name:
+            self._new_rx = None
+            self.activity[name] = (w.now, idle)
+        if any(r.ack_eliciting for d, a in sent for r in d.recs if r.opened):
+            self.activity[name] = (w.now, idle)
+        if n_term and name in self.activity and name not in self.closing:
+            ev = [e for e in new_events if type(e).__name__ == "ConnectionTerminated"][0]
+            t_act, idle_then = self.activity[name]
+            if ev.reason_phrase == "Idle timeout" and w.now > t_act + idle_then + 0.025 + ep.timer_late \
+                    and not ep.was_late:
+                raise Violation(
+                    {"monitor": "idle.terminated_late"},
+                    "%s: idle termination at %.6f but the last activity was at %.6f and the idle period "
+                    "is %.3f s (deadline %.6f)" % (name, w.now - w.t0, t_act - w.t0, idle_then,
+                                                  t_act + idle_then - w.t0))
         if ep.terminated is not None:
             already = self.term_count[name]
             self.term_count[name] += n_term
@@ -137,7 +173,7 @@ class TimerMonitor(netsim.Monitor):
                             % (name, timer, conn._state.name, cause))
         closing_now = _end_states(conn)
         if closing_now and name not in self.closing:
-            pto = conn._loss.get_probe_timeout()
+            pto = independent_pto(conn)
             self.closing[name] = (w.now, pto)
             if timer > w.now + 3 * pto + 1e-6:
                 raise Violation({"monitor": "close.deadline_beyond_3pto"},
